@@ -7,13 +7,14 @@
 open C09
 open Conv
 
-(* Switches for the day the two known findings are fixed in the library (defaults = current tree):
-   C09_WRAPPER=fixed    the collinear fallback returns the extreme input points (BBox.convex_hull_w_fixed, F10)
-   C09_REFHULL=offsets  a reference with an Explicit repetition is repeated at all offsets (F9); the box path
-                        then also sees the offsets, which gives the same box (C11: same extremes) *)
-let chull =
-  if Sys.getenv_opt "C09_WRAPPER" = Some "original" then convex_hull_w hull_mc else convex_hull_w_fixed hull_mc
-let ref_all_offsets = Sys.getenv_opt "C09_REFHULL" <> Some "extrema"
+(* The model follows the current tree (collinear fallback = the two extreme input points; Reference::convex_hull
+   repeats at every offset of an Explicit repetition).  C09_OLD=1 replays the behaviour before the fixes
+   cd7171e / d7329ad (BBox.convex_hull_w_old, hall = false), e.g. to confirm a regression of the known keys. *)
+let old = Sys.getenv_opt "C09_OLD" = Some "1"
+let chull = if old then convex_hull_w_old hull_mc else convex_hull_w hull_mc
+let cell_query c q = cell_query_g c (not old) q
+let ref_bbox_c c = ref_bbox_g c (not old)
+let ref_hull_c c = ref_hull_g c (not old)
 
 let show_z z = hex_of_z z
 let show_box = function
@@ -37,17 +38,15 @@ let () =
     let points k = List.init k (fun _ -> point ()) in
     let expect s = let t = next () in if t <> s then raise (Bad ("expected " ^ s ^ " got " ^ t)) in
     let lists () = expect ":"; let no = int () in let o = points no in let ne = int () in let e = points ne in
-      Some { offs = o; exts = e } in
-    let last_rep_kind = ref "n" in
+      Some { offs = o; exts = e; r_explicit = false } in
     let rep () =
-      let k = next () in
-      last_rep_kind := k;
-      match k with
+      match next () with
       | "n" -> None
       | "R" -> ignore (int ()); ignore (int ()); ignore (next ()); ignore (next ()); lists ()
       | "G" -> ignore (int ()); ignore (int ()); for _ = 1 to 4 do ignore (next ()) done; lists ()
       | "X" | "Y" -> let k = int () in for _ = 1 to k do ignore (next ()) done; lists ()
-      | "E" -> let k = int () in for _ = 1 to 2 * k do ignore (next ()) done; lists ()
+      | "E" -> let k = int () in for _ = 1 to 2 * k do ignore (next ()) done;
+               (match lists () with Some r -> Some { r with r_explicit = true } | None -> None)
       | t -> raise (Bad ("rep " ^ t)) in
     let poly () = expect "p"; let k = int () in let pts = points k in let r = rep () in { p_pts = pts; p_rep = r } in
     try
@@ -82,9 +81,6 @@ let () =
               let mag = num () in
               let xr = int () <> 0 in
               let r = rep () in
-              let r = (match r with
-                       | Some rr when ref_all_offsets && !last_rep_kind = "E" -> Some { offs = rr.offs; exts = rr.offs }
-                       | _ -> r) in
               if ci >= i then raise (Bad "child index");
               ({ pl_org = o; pl_ca = ca; pl_sa = sa; pl_quarter = quarter; pl_mag = mag; pl_xrefl = xr; pl_rep = r },
                cells.(ci))) in
